@@ -40,9 +40,10 @@ META = {
             "hand-written models; key/value types enter the model as integers (order-preserving encoding done by the harness); "
             "the interpreter's array_get/array_set/sizeof/pointer arithmetic are covered by differential testing only. "
             "Release half: the model log is proved sound; that the interpreter calls malloc/free where the log says is "
-            "observed (LD_PRELOAD shim on the plain build, ASan/UBSan build in the thorough tier), not proved. Known findings: "
-            "string elements in Vector/Queue, bool/tiny elements in Queue, every `void* p = malloc(n)` declaration allocates "
-            "twice (one block leaked), misaligned next pointer in Queue<int/short> (UBSan).",
+            "observed exactly (LD_PRELOAD shim on the plain build, ASan/UBSan build in the thorough tier), not proved. Known findings "
+            "still open: Map<K,V> constructor/destructor never run, string comparison inside Vector<string> find/sort, string "
+            "payload copies never freed, empty-string results re-evaluated, long range checks, container copies share nodes, "
+            "misaligned next pointer in Queue<int/short> (UBSan).",
 }
 
 # ------------------------------------------------------------------ element types
